@@ -412,14 +412,16 @@ inductive ClsOnSet where
 def clsHookOf (isDefine : Bool) (frozen : Bool) (k : ClsOnSet) (attrs : List Attr) : Bool :=
   let anyV := attrs.any (fun a => a.validators != 0)
   let anyC := attrs.any (fun a => a.conv.isSome)
-  let eff : ClsOnSet := if isDefine && k == .unset then (if frozen then .noop else .pipeCV) else k
   if frozen then false else
-  match eff with
+  -- define's implicit default is the `_DEFAULT_ON_SETATTR` object itself, which the builder drops when there
+  -- is nothing to convert or validate (an identity test, as for the bare `setters.validate`/`convert`);
+  -- an explicitly written `[convert, validate]` list is a fresh pipe object and is always kept
+  if isDefine && k == .unset then anyV || anyC else
+  match k with
   | .unset | .noop => false
-  | .hook => true
+  | .hook | .pipeCV => true
   | .validate => anyV
   | .convert => anyC
-  | .pipeCV => anyV || anyC
 
 structure Case where
   run : RunIn
